@@ -1,3 +1,662 @@
 package main
 
-func runMain() int { return 0 }
+// Driver framework: work items, obligations, sharding over worker processes, evidence, known findings.
+
+import (
+	"bufio"
+	"encoding/json"
+	"flag"
+	"fmt"
+	"os"
+	"os/exec"
+	"path/filepath"
+	"runtime"
+	"sort"
+	"strconv"
+	"strings"
+	"sync"
+	"time"
+)
+
+type Violation struct {
+	Property   string         `json:"property"`
+	Item       string         `json:"item"`
+	Obligation string         `json:"obligation"`
+	Detail     string         `json:"detail"`
+	Model      map[string]any `json:"model,omitempty"`
+	Replay     *ReplayReq     `json:"replay,omitempty"`
+	Confirmed  string         `json:"confirmed"` // "native", "not-reproduced", "unreplayable", ""
+	Observed   any            `json:"observed,omitempty"`
+	ReplayFile string         `json:"replay_file,omitempty"`
+	Known      string         `json:"known,omitempty"`
+}
+
+type ItemResult struct {
+	ID        string         `json:"id"`
+	Obl       int            `json:"obl"`
+	Dis       int            `json:"dis"`
+	Syntactic int            `json:"syntactic"`
+	Paths     int            `json:"paths"`
+	Steps     int            `json:"steps"`
+	Queries   int            `json:"queries"`
+	SolverMs  float64        `json:"solver_ms"`
+	WallMs    float64        `json:"wall_ms"`
+	Viol      []Violation    `json:"viol,omitempty"`
+	Inconcl   []string       `json:"inconcl,omitempty"`
+	Sample    any            `json:"sample,omitempty"`
+	Funcs     map[string]int `json:"funcs,omitempty"`
+	Witness   int            `json:"witness"` // reachability witnesses found (vacuity guard)
+	Vacuous   []string       `json:"vacuous,omitempty"`
+	Imprecise []string       `json:"imprecise,omitempty"`
+	Merges    int            `json:"merges"`
+	MaxQMs    float64        `json:"max_query_ms"`
+}
+
+type Item struct {
+	ID  string
+	Run func(c *Ctx)
+}
+
+type Ctx struct {
+	w     *World
+	sc    *Schema
+	tier  string
+	prop  string
+	seed  int64
+	res   *ItemResult
+	item  string
+	gen   *Gen
+}
+
+type Driver struct {
+	Prop       string
+	Level      string
+	Items      func(c *Ctx) []Item
+	Bounds     func(tier string) map[string]any
+	Assume     []string
+	Explain    string
+	PostParent func(c *Ctx, ev *Evidence) // optional extra parent-side work
+}
+
+var drivers = map[string]*Driver{}
+
+func (c *Ctx) thorough() bool { return c.tier == "thorough" }
+
+func (c *Ctx) e() *Engine { return c.w.e }
+
+func (c *Ctx) Inconclusive(msg string) {
+	c.res.Obl++
+	c.res.Inconcl = append(c.res.Inconcl, msg)
+}
+
+// Prove counts one obligation: goal must hold under the path condition of s.
+// onSat builds the violation (with a replay request) from the model.
+func (c *Ctx) Prove(s *State, name string, goal *Term, onSat func(val func(*Term) uint64) *Violation) bool {
+	c.res.Obl++
+	if goal == True {
+		c.res.Dis++
+		c.res.Syntactic++
+		return true
+	}
+	sv := c.e().solver
+	r := sv.Check(append(append([]*Term{}, s.pc...), Not(goal))...)
+	switch r {
+	case "unsat":
+		c.res.Dis++
+		return true
+	case "sat":
+		val := func(t *Term) uint64 {
+			v, _ := sv.Value(t)
+			return v
+		}
+		var v *Violation
+		if onSat != nil {
+			v = onSat(val)
+		}
+		if v == nil {
+			v = &Violation{}
+		}
+		v.Property, v.Item = c.prop, c.item
+		if v.Obligation == "" {
+			v.Obligation = name
+		}
+		if v.Detail == "" {
+			v.Detail = name + " can be violated"
+		}
+		sv.Done()
+		c.res.Viol = append(c.res.Viol, *v)
+		return false
+	default:
+		if os.Getenv("VF_DEBUG") != "" {
+			fmt.Fprintln(os.Stderr, "UNKNOWN goal", name, ":", dumpTerm(goal, 6))
+		}
+		c.res.Inconcl = append(c.res.Inconcl, name+": solver answered unknown/timeout")
+		return false
+	}
+}
+
+// Witness: the path condition of s must be satisfiable (vacuity guard); returns a model accessor.
+func (c *Ctx) Witness(s *State, what string, sample func(val func(*Term) uint64) any) bool {
+	sv := c.e().solver
+	r := sv.Check(s.pc...)
+	if r == "sat" {
+		c.res.Witness++
+		if sample != nil && c.res.Sample == nil {
+			c.res.Sample = sample(func(t *Term) uint64 { v, _ := sv.Value(t); return v })
+		}
+		sv.Done()
+		return true
+	}
+	sv.Done()
+	if r == "unsat" {
+		c.res.Vacuous = append(c.res.Vacuous, what)
+	}
+	return false
+}
+
+// PathProblem handles a final state that ended in a panic or was cut; returns true if the state is unusable.
+func (c *Ctx) PathProblem(s *State, where string, mkViol func(val func(*Term) uint64, msg string) *Violation) bool {
+	c.res.Imprecise = unionStr(c.res.Imprecise, s.imprec)
+	if s.cut != "" {
+		c.Inconclusive(where + ": " + s.cut)
+		return true
+	}
+	if s.panicd != "" {
+		// a panic path: the path condition is feasible by construction of forks, ask for a model
+		c.res.Obl++
+		sv := c.e().solver
+		r := sv.Check(s.pc...)
+		if r == "sat" {
+			val := func(t *Term) uint64 { v, _ := sv.Value(t); return v }
+			var v *Violation
+			if mkViol != nil {
+				v = mkViol(val, s.panicd)
+			}
+			if v == nil {
+				v = &Violation{}
+			}
+			v.Property, v.Item = c.prop, c.item
+			if v.Obligation == "" {
+				v.Obligation = "no-panic"
+			}
+			if v.Detail == "" {
+				v.Detail = where + ": " + s.panicd
+			}
+			sv.Done()
+			c.res.Viol = append(c.res.Viol, *v)
+		} else if r == "unsat" {
+			sv.Done()
+			c.res.Dis++ // infeasible after all
+		} else {
+			sv.Done()
+			c.res.Inconcl = append(c.res.Inconcl, where+": panic path feasibility unknown: "+s.panicd)
+		}
+		return true
+	}
+	return false
+}
+
+// ---------------------------------------------------------------- evidence
+
+type Evidence struct {
+	PropertyID string         `json:"property_id"`
+	Tier       string         `json:"tier"`
+	Seed       int64          `json:"seed"`
+	Level      string         `json:"level"`
+	Coverage   map[string]any `json:"coverage"`
+	Assume     []string       `json:"assumptions"`
+	WallS      float64        `json:"wall_s"`
+	Violations int            `json:"violations"`
+}
+
+type KnownFinding struct {
+	Status   string            `json:"status"`
+	Property string            `json:"property"`
+	Match    map[string]string `json:"match"`
+	Commit   string            `json:"commit,omitempty"`
+	What     string            `json:"what"`
+}
+
+func loadKnown() []KnownFinding {
+	raw, err := os.ReadFile(filepath.Join(verifDir(), "known_findings.json"))
+	if err != nil {
+		return nil
+	}
+	var out struct {
+		Findings []KnownFinding `json:"findings"`
+	}
+	if json.Unmarshal(raw, &out) != nil {
+		return nil
+	}
+	return out.Findings
+}
+
+func matchKnown(kf []KnownFinding, v *Violation) *KnownFinding {
+	for i := range kf {
+		k := &kf[i]
+		if k.Status != "known" || k.Property != v.Property {
+			continue
+		}
+		ok := true
+		if p := k.Match["item"]; p != "" {
+			if m, _ := filepath.Match(p, v.Item); !m {
+				ok = false
+			}
+		}
+		if p := k.Match["obligation"]; p != "" {
+			if m, _ := filepath.Match(p, v.Obligation); !m {
+				ok = false
+			}
+		}
+		if ok {
+			return k
+		}
+	}
+	return nil
+}
+
+// ---------------------------------------------------------------- main
+
+func runMain() int {
+	fs := flag.NewFlagSet("vfcheck", flag.ExitOnError)
+	prop := fs.String("prop", "", "property id")
+	tier := fs.String("tier", "quick", "quick|thorough")
+	worker := fs.Bool("worker", false, "worker mode (internal)")
+	shard := fs.String("shard", "0/1", "shard i/n")
+	only := fs.String("only", "", "substring filter on item ids")
+	nw := fs.Int("workers", 0, "worker processes")
+	list := fs.Bool("list", false, "list items")
+	replay := fs.String("replay", "", "replay file")
+	fs.Parse(os.Args[1:])
+	if *replay != "" {
+		return replayFile(*replay)
+	}
+	if t := os.Getenv("VERIF_TIER"); t != "" && !isFlagSet(fs, "tier") {
+		*tier = t
+	}
+	d := drivers[*prop]
+	if d == nil {
+		fmt.Fprintln(os.Stderr, "unknown property", *prop)
+		return 2
+	}
+	seed := int64(1)
+	if v := os.Getenv("VERIF_SEED"); v != "" {
+		if n, err := strconv.ParseInt(v, 10, 64); err == nil {
+			seed = n
+		}
+	}
+	if *worker {
+		return workerMain(d, *tier, seed, *shard, *only)
+	}
+	if *list {
+		c, err := newCtx(d, *tier, seed)
+		if err != nil {
+			fmt.Fprintln(os.Stderr, err)
+			return 2
+		}
+		for _, it := range d.Items(c) {
+			fmt.Println(it.ID)
+		}
+		return 0
+	}
+	n := *nw
+	if n == 0 {
+		n = runtime.NumCPU()
+		if v := os.Getenv("VF_WORKERS"); v != "" {
+			n, _ = strconv.Atoi(v)
+		}
+	}
+	return parentMain(d, *tier, seed, n, *only)
+}
+
+func isFlagSet(fs *flag.FlagSet, name string) bool {
+	set := false
+	fs.Visit(func(f *flag.Flag) {
+		if f.Name == name {
+			set = true
+		}
+	})
+	return set
+}
+
+func newCtx(d *Driver, tier string, seed int64) (*Ctx, error) {
+	sc, err := LoadSchema()
+	if err != nil {
+		return nil, err
+	}
+	tmo := 20000
+	if tier == "thorough" {
+		tmo = 120000
+	}
+	if v := os.Getenv("VF_TIMEOUT_MS"); v != "" {
+		tmo, _ = strconv.Atoi(v)
+	}
+	bin := "z3-new"
+	if v := os.Getenv("VF_SOLVER"); v != "" {
+		bin = v
+	}
+	w, err := LoadWorld(bin, tmo)
+	if err != nil {
+		return nil, err
+	}
+	return &Ctx{w: w, sc: sc, tier: tier, prop: d.Prop, seed: seed}, nil
+}
+
+func workerMain(d *Driver, tier string, seed int64, shard, only string) int {
+	var si, sn int
+	fmt.Sscanf(shard, "%d/%d", &si, &sn)
+	c, err := newCtx(d, tier, seed)
+	out := bufio.NewWriter(os.Stdout)
+	defer out.Flush()
+	enc := json.NewEncoder(out)
+	if err != nil {
+		enc.Encode(map[string]any{"fatal": err.Error()})
+		return 2
+	}
+	enc.Encode(map[string]any{"load_s": c.w.loadS, "init_steps": c.w.nInit})
+	items := d.Items(c)
+	// cost-balanced round robin: items are assigned by index
+	for i, it := range items {
+		if i%sn != si {
+			continue
+		}
+		if only != "" && !strings.Contains(it.ID, only) {
+			continue
+		}
+		res := c.runItem(it)
+		enc.Encode(res)
+		out.Flush()
+	}
+	return 0
+}
+
+func (c *Ctx) runItem(it Item) *ItemResult {
+	e := c.e()
+	res := &ItemResult{ID: it.ID}
+	c.res, c.item = res, it.ID
+	q0, t0s, p0, st0, m0 := e.solver.Queries, e.solver.Time, e.Paths, e.Steps, e.Merges
+	e.solver.MaxQuery = 0
+	e.funcs = map[string]int{}
+	t0 := time.Now()
+	func() {
+		defer func() {
+			if r := recover(); r != nil {
+				if be, ok := r.(bindErr); ok {
+					c.Inconclusive("cannot bind schema to the tree: " + string(be))
+					return
+				}
+				if eu, ok := r.(engineUnsupported); ok {
+					c.Inconclusive("unsupported: " + string(eu))
+					return
+				}
+				buf := make([]byte, 4096)
+				n := runtime.Stack(buf, false)
+				c.Inconclusive(fmt.Sprintf("engine failure: %v\n%s", r, buf[:n]))
+				e.solver.Done()
+			}
+		}()
+		it.Run(c)
+	}()
+	e.solver.Done()
+	res.Queries = e.solver.Queries - q0
+	res.SolverMs = float64((e.solver.Time - t0s).Microseconds()) / 1000
+	res.WallMs = float64(time.Since(t0).Microseconds()) / 1000
+	res.Paths = e.Paths - p0
+	res.Steps = e.Steps - st0
+	res.Merges = e.Merges - m0
+	res.Funcs = e.funcs
+	res.MaxQMs = float64(e.solver.MaxQuery.Microseconds()) / 1000
+	// keep the term table bounded on long runs
+	if tcount > 3000000 {
+		resetTerms()
+		e.solver.Restart()
+	}
+	return res
+}
+
+func resetTerms() {
+	// Terms of the base state (init-built maps hold only constants) are re-created on demand by hash-consing;
+	// dropping the table only loses sharing, never correctness, because ids stay unique (tcount is not reset).
+	hc = map[string]*Term{}
+	hc[fmt.Sprintf("%s|%d|%d|%s|%d|%d", "true", 0, 0, "", 0, 0)] = True
+	hc[fmt.Sprintf("%s|%d|%d|%s|%d|%d", "false", 0, 0, "", 0, 0)] = False
+	varBounds = map[*Term][2]int64{}
+}
+
+func parentMain(d *Driver, tier string, seed int64, nworkers int, only string) int {
+	t0 := time.Now()
+	exe, _ := os.Executable()
+	type wres struct {
+		items []*ItemResult
+		fatal string
+		loadS float64
+		err   string
+	}
+	results := make([]wres, nworkers)
+	var wg sync.WaitGroup
+	for i := 0; i < nworkers; i++ {
+		wg.Add(1)
+		go func(i int) {
+			defer wg.Done()
+			args := []string{"-worker", "-prop", d.Prop, "-tier", tier, "-shard", fmt.Sprintf("%d/%d", i, nworkers)}
+			if only != "" {
+				args = append(args, "-only", only)
+			}
+			cmd := exec.Command(exe, args...)
+			cmd.Env = append(os.Environ(), fmt.Sprintf("VERIF_SEED=%d", seed))
+			cmd.Stderr = os.Stderr
+			op, _ := cmd.StdoutPipe()
+			if err := cmd.Start(); err != nil {
+				results[i].fatal = err.Error()
+				return
+			}
+			sc := bufio.NewScanner(op)
+			sc.Buffer(make([]byte, 1<<20), 1<<28)
+			for sc.Scan() {
+				line := sc.Bytes()
+				if len(line) == 0 || line[0] != '{' {
+					continue
+				}
+				var probe map[string]json.RawMessage
+				if json.Unmarshal(line, &probe) != nil {
+					continue
+				}
+				if f, ok := probe["fatal"]; ok {
+					json.Unmarshal(f, &results[i].fatal)
+					continue
+				}
+				if l, ok := probe["load_s"]; ok {
+					json.Unmarshal(l, &results[i].loadS)
+					continue
+				}
+				var r ItemResult
+				if json.Unmarshal(line, &r) == nil && r.ID != "" {
+					results[i].items = append(results[i].items, &r)
+				}
+			}
+			if err := cmd.Wait(); err != nil {
+				results[i].err = err.Error()
+			}
+		}(i)
+	}
+	wg.Wait()
+	var all []*ItemResult
+	broken := ""
+	for _, r := range results {
+		if r.fatal != "" {
+			broken = r.fatal
+		}
+		if r.err != "" && broken == "" {
+			broken = "worker failed: " + r.err
+		}
+		all = append(all, r.items...)
+	}
+	sort.Slice(all, func(i, j int) bool { return all[i].ID < all[j].ID })
+	if broken != "" {
+		fmt.Println("CHECK BROKEN:", broken)
+		return 2
+	}
+	return finish(d, tier, seed, all, time.Since(t0), nworkers)
+}
+
+func finish(d *Driver, tier string, seed int64, all []*ItemResult, wall time.Duration, nworkers int) int {
+	known := loadKnown()
+	ev := &Evidence{PropertyID: d.Prop, Tier: tier, Seed: seed, Level: d.Level, Coverage: map[string]any{}, Assume: d.Assume}
+	var obl, dis, syn, paths, steps, queries, witness, merges int
+	var solverMs, maxQ float64
+	funcs := map[string]int{}
+	var inconcl, vacuous, imprec []string
+	var viols []Violation
+	var samples []any
+	for _, r := range all {
+		obl += r.Obl
+		dis += r.Dis
+		syn += r.Syntactic
+		paths += r.Paths
+		steps += r.Steps
+		queries += r.Queries
+		solverMs += r.SolverMs
+		witness += r.Witness
+		merges += r.Merges
+		if r.MaxQMs > maxQ {
+			maxQ = r.MaxQMs
+		}
+		for k, v := range r.Funcs {
+			funcs[k] += v
+		}
+		for _, m := range r.Inconcl {
+			inconcl = append(inconcl, r.ID+": "+m)
+		}
+		for _, m := range r.Vacuous {
+			vacuous = append(vacuous, r.ID+": "+m)
+		}
+		imprec = unionStr(imprec, r.Imprecise)
+		viols = append(viols, r.Viol...)
+		if r.Sample != nil && len(samples) < 5 {
+			samples = append(samples, map[string]any{"item": r.ID, "witness": r.Sample})
+		}
+	}
+	// replay candidates natively
+	nViol := 0
+	var outLines []string
+	confirmViolations(d, viols)
+	seenKnown := map[string]bool{}
+	for i := range viols {
+		v := &viols[i]
+		switch v.Confirmed {
+		case "native", "unreplayable":
+			if k := matchKnown(known, v); k != nil {
+				v.Known = k.What
+				key := k.Property + "|" + k.What
+				if !seenKnown[key] {
+					seenKnown[key] = true
+					outLines = append(outLines, fmt.Sprintf("KNOWN-FINDING: property=%s %s", v.Property, k.What))
+				}
+				continue
+			}
+			if v.Confirmed == "unreplayable" {
+				inconcl = append(inconcl, fmt.Sprintf("%s: %s: counterexample cannot be replayed natively (%s)", v.Item, v.Obligation, v.Detail))
+				continue
+			}
+			nViol++
+			outLines = append(outLines, fmt.Sprintf("VIOLATION property=%s replay=%s", v.Property, v.ReplayFile))
+			outLines = append(outLines, fmt.Sprintf("  item=%s obligation=%s: %s", v.Item, v.Obligation, v.Detail))
+		default:
+			inconcl = append(inconcl, fmt.Sprintf("%s: %s: solver counterexample not reproduced natively (encoding gap): %s", v.Item, v.Obligation, v.Detail))
+		}
+	}
+	fnames := make([]string, 0, len(funcs))
+	for k := range funcs {
+		fnames = append(fnames, k)
+	}
+	sort.Strings(fnames)
+	if len(fnames) > 400 {
+		fnames = append(fnames[:400], fmt.Sprintf("... and %d more", len(fnames)-400))
+	}
+	if len(samples) == 0 {
+		samples = append(samples, map[string]any{"note": "no reachability witness recorded", "items": len(all)})
+	}
+	ev.Coverage["states"] = max(paths, 1)
+	ev.Coverage["transitions"] = max(steps, 1)
+	ev.Coverage["traces_validated_against_impl"] = tvCount
+	ev.Coverage["samples"] = samples
+	ev.Coverage["obligations"] = obl
+	ev.Coverage["discharged"] = dis
+	ev.Coverage["discharged_syntactically"] = syn
+	ev.Coverage["solver_queries"] = queries
+	ev.Coverage["solver"] = "z3 5.1.0 (z3-new -in, push/pop); per-query timeout " + map[string]string{"quick": "20 s", "thorough": "120 s"}[tier]
+	ev.Coverage["solver_time_s"] = solverMs / 1000
+	ev.Coverage["max_query_ms"] = maxQ
+	ev.Coverage["items"] = len(all)
+	ev.Coverage["programs"] = len(all)
+	ev.Coverage["disagreements_checked"] = obl
+	ev.Coverage["reachability_witnesses"] = witness
+	ev.Coverage["merges"] = merges
+	ev.Coverage["functions_encoded"] = fnames
+	ev.Coverage["functions_encoded_count"] = len(funcs)
+	ev.Coverage["trusted_base"] = TrustedBase
+	ev.Coverage["workers"] = nworkers
+	ev.Coverage["repo"] = repoDir()
+	if d.Bounds != nil {
+		ev.Coverage["bounds"] = d.Bounds(tier)
+	}
+	ev.Coverage["explanation"] = d.Explain
+	if len(inconcl) > 0 {
+		ev.Coverage["inconclusive"] = trunc(inconcl, 200)
+	}
+	if len(vacuous) > 0 {
+		ev.Coverage["vacuous"] = trunc(vacuous, 100)
+	}
+	if len(imprec) > 0 {
+		ev.Coverage["imprecise_paths"] = trunc(imprec, 100)
+	}
+	var vsum []map[string]any
+	for _, v := range viols {
+		vsum = append(vsum, map[string]any{"item": v.Item, "obligation": v.Obligation, "detail": v.Detail, "confirmed": v.Confirmed, "replay": v.ReplayFile, "known": v.Known})
+		if len(vsum) >= 50 {
+			break
+		}
+	}
+	if len(vsum) > 0 {
+		ev.Coverage["counterexamples"] = vsum
+	}
+	ev.Violations = nViol
+	ev.WallS = wall.Seconds()
+	os.MkdirAll(filepath.Join(verifDir(), "evidence"), 0o755)
+	raw, _ := json.MarshalIndent(ev, "", " ")
+	os.WriteFile(filepath.Join(verifDir(), "evidence", d.Prop+".json"), raw, 0o644)
+	for _, l := range outLines {
+		fmt.Println(l)
+	}
+	for i, m := range inconcl {
+		if i >= 20 {
+			fmt.Printf("INCONCLUSIVE ... and %d more\n", len(inconcl)-20)
+			break
+		}
+		fmt.Println("INCONCLUSIVE", firstLine(m))
+	}
+	for _, m := range vacuous {
+		fmt.Println("VACUOUS", m)
+	}
+	fmt.Printf("%s %s: items=%d paths=%d obligations=%d discharged=%d (syntactic %d) queries=%d solver=%.1fs wall=%.1fs violations=%d inconclusive=%d\n",
+		d.Prop, tier, len(all), paths, obl, dis, syn, queries, solverMs/1000, wall.Seconds(), nViol, len(inconcl))
+	if nViol > 0 {
+		return 1
+	}
+	return 0
+}
+
+func firstLine(s string) string {
+	if i := strings.Index(s, "\n"); i >= 0 {
+		return s[:i]
+	}
+	return s
+}
+func trunc(xs []string, n int) []string {
+	if len(xs) > n {
+		return append(append([]string{}, xs[:n]...), fmt.Sprintf("... and %d more", len(xs)-n))
+	}
+	return xs
+}
+
+var tvCount int
